@@ -322,6 +322,9 @@ def run(rep, facts, tier):
                 for bb, t in dm.calls() if len(t['args']) == 2)
     rep.check(keyid, 'R16.4', 'decode_rtps_message/key-id-compared', 'header key id compared with the key material', 'decode_rtps_message does not compare the header key id with the key material', dm.where())
 
+    # ------------------------------------------------------------ R16.5
+    rule_16_5(rep, fx)
+
 
 def _reads_local(rv, l):
     r = rv['r']
@@ -337,3 +340,56 @@ def _reads_local(rv, l):
     elif r in ('ref', 'discr', 'rawptr'):
         return rv['pl']['l'] == l
     return any(o.get('o') in ('copy', 'move') and o['pl']['l'] == l for o in ops)
+
+
+def rule_16_5(rep, fx):
+    """The header key id must be tied to the key material that is actually used: the last thing get_decode_key_material does to the value it returns
+    is to filter the *selected* single material on sender_key_id == header key id."""
+    rep.rule('R16.5', 'key id bound to the material used: get_decode_key_material returns filter(selected material, |m| m.sender_key_id == key_id) - the comparison is applied to the '
+                      'single material picked for the requested scope (not to "some material of the handle"), and nothing re-selects after it; the session-material getters pass the '
+                      'header key id through unchanged')
+    b = fx.find('CryptographicBuiltin::get_decode_key_material')
+    rep.analysed(b)
+    og = Origins(b)
+    rets = b.return_blocks()
+    t0 = og.of_local(0, rets[0], 'term') if rets else ('unknown',)
+    ok = False
+    why = 'the returned value is not Option::filter(..) of the selected material'
+    if t0[0] == 'call' and t0[1].endswith('Option::filter') and len(t0[2]) == 2 and t0[2][1][0] == 'agg':
+        clos_key = norm_path(str(t0[2][1][1]))
+        cands = [c for c in fx.closures_of(b) if c.key == clos_key]
+        inner = t0[2][0]
+        selected = term_has(inner, lambda x: x[0] == 'agg' and any(
+            any(callee_res(tt).endswith('KeyMaterial_AES_GCM_GMAC_seq::select') for _bb, tt in c.calls()) for c in fx.closures_of(b) if c.key == norm_path(str(x[1]))))
+        if cands and selected:
+            c = cands[0]
+            pty = c.locals[2] if len(c.locals) > 2 else ''
+            single = strip_generics(pty).replace('&', '').strip().endswith('KeyMaterial_AES_GCM_GMAC')
+            ogc = Origins(c)
+            cr = c.return_blocks()
+            rv = ogc.of_local(0, cr[0], 'term') if cr else ('unknown',)
+            cmp_ok = rv[0] == 'call' and rv[1].endswith('::eq') and len(rv[2]) == 2 and \
+                any(term_has(x, lambda y: y[0] == 'field' and y[1] == 'sender_key_id' and term_has(y, lambda z: z == ('param', 2))) for x in rv[2]) and \
+                any(term_has(x, lambda y: y[0] in ('captured', 'field') and 'key_id' in str(y[1]) and term_has(y, lambda z: z == ('param', 1))) for x in rv[2])
+            # the captured key_id is the function's own key_id parameter
+            cap = dict(zip(t0[2][1][3], t0[2][1][2]))
+            cap_ok = cap.get('key_id') == ('param', 3)
+            ok = single and cmp_ok and cap_ok
+            why = 'predicate parameter is %s, comparison %s, captured key id %s' % (pty, term_str(rv)[:80], cap.get('key_id'))
+        elif not selected:
+            why = 'the filtered value is not the material selected for the requested scope'
+    rep.check(ok, 'R16.5', 'get_decode_key_material/filter-on-selected', 'Some(m) only if m = select(scope) and m.sender_key_id == key_id',
+              'get_decode_key_material does not bind the header key id to the key material it returns (%s): a message carrying the id of the sender\'s other key material '
+              'is decoded with the wrong-scope material instead of being rejected' % why, b.where())
+    # the key id handed down is the one of the received header
+    n = 0
+    for cb, bb, t in fx.callers_of('get_decode_key_material') + fx.callers_of('get_session_decode_crypto_materials') + fx.callers_of('session_decode_crypto_materials'):
+        if cb.key.endswith(('get_decode_key_material',)):
+            continue
+        n += 1
+        ogc = Origins(cb, summaries=True)
+        kid = ogc.of_operand(t['args'][2], bb, 'term')
+        good = kid[0] == 'param' or term_has(kid, lambda x: x[0] == 'field' and x[1] in ('transformation_key_id', 'header_key_id'))
+        rep.check(good, 'R16.5', '%s/key-id-arg#%d' % (cb.key, n), 'key id = %s' % term_str(kid)[:60],
+                  '%s passes a key id that is not the received header\'s (%s)' % (cb.key, term_str(kid)[:80]), cb.where(bb))
+    rep.floor('R16.5', n, 3, 'call sites handing the header key id to the key-material lookup')
